@@ -102,7 +102,7 @@ def run(ctx):
     # 4. vacuity: every decoder accepted and rejected something, every type was encoded,
     #    the stream paths were exercised in both directions
     acc, rej, enc_ok, srcs = {}, {}, {}, {}
-    walk_ok = walk_err = split_ok = huge = failed_encodes = after_fail = 0
+    walk_ok = walk_err = split_ok = huge = failed_encodes = after_fail = dest_ok = 0
     distinct = set()
     real_calls = 0
     samples, seen_src = [], set()
@@ -116,9 +116,11 @@ def run(ctx):
             failed_encodes += not e["ok"]
             continue
         if e["event"] == "Decode":
-            real_calls += len(e["res"]) + 2 + len(e["streams"])
+            real_calls += 3 * len(e["res"]) + 2 + len(e["streams"])
             anyok = e["split"]["ok"]
             for r in e["res"]:
+                for ds in r["dest"]:
+                    dest_ok += ds["ok"]
                 d = acc if r["ok"] else rej
                 d[r["t"]] = d.get(r["t"], 0) + 1
                 anyok = anyok or r["ok"]
@@ -142,6 +144,7 @@ def run(ctx):
     require(len(enc_ok) == ntypes and all(v > 0 for v in enc_ok.values()), "some type was never encoded", ctx=ctx)
     require(walk_ok > 100 and walk_err > 100 and split_ok > 100, "stream/split paths not exercised", ctx=ctx)
     require(huge > 10, "no input declaring a size of 4+ bytes", ctx=ctx)
+    require(dest_ok > 5000, "decodes into non-zero destinations hardly succeeded (%d)" % dest_ok, ctx=ctx)
     require(nconc > 10000, "concurrency family hardly ran (%d concurrent encodes)" % nconc, ctx=ctx)
     require(failed_encodes > 50 and after_fail > 50, "encode sequences (failed encode, then ordinary encode) hardly occurred: %d, %d"
             % (failed_encodes, after_fail), ctx=ctx)
@@ -167,6 +170,7 @@ def run(ctx):
         "events_by_source": srcs,
         "tlc_cases": {"byte_strings": len(cases) - nshape - nval - nseq, "shapes": nshape, "typed_values": nval, "encode_sequences": nseq},
         "failed_encodes": failed_encodes,
+        "accepting_decodes_into_nonzero_destinations": dest_ok,
         "concurrent_encode_decode_rounds": nconc,
         "encodes_directly_after_a_failed_encode": after_fail,
         "accepted_per_type": acc,
@@ -176,7 +180,8 @@ def run(ctx):
                        "Dec(b)#Err => Enc(Dec(b))=b for every enumerated byte string and type, and TDec(TEnc(v))=v for every "
                        "enumerated value, and exports the cases; harness/cmd/c08 runs the real package on them; RlpTrace "
                        "recomputes the reference result for every event and judges accept/reject, value, re-encoding, panics, "
-                       "bytes read and allocation.  Every encode is repeated by value, inside an interface{} list, through Encode(io.Writer) and "
+                       "bytes read and allocation.  Every decode is repeated into a destination that holds a larger value of the type / defaults and "
+                       "into the same destination a second time (the result is a function of the bytes alone).  Every encode is repeated by value, inside an interface{} list, through Encode(io.Writer) and "
                        "EncodeToReader; a concurrency family (8 goroutines x rounds per type, GOMAXPROCS = all cores and 1) codes different "
                        "values of one type at the same time and every result that differs from the sequential one is judged like any other.",
     }
